@@ -973,10 +973,14 @@ impl<'a> HpoTerm<'a> {
     /// # Panics
     /// TODO    
     pub fn path_to_term(&self, other: &HpoTerm) -> Option<Vec<HpoTermId>> {
-        if other.parent_of(self) {
+        // If one term is an ancestor of the other, the chain of parents is only
+        // the shortest path if there is no shorter route via another common ancestor
+        if other.parent_of(self) && self.distance_to_ancestor(other) == self.distance_to_term(other)
+        {
             return self.path_to_ancestor(other);
         }
-        if self.parent_of(other) {
+        if self.parent_of(other) && other.distance_to_ancestor(self) == self.distance_to_term(other)
+        {
             return other.path_to_ancestor(self).map(|terms| {
                 terms
                     .iter()
